@@ -84,7 +84,7 @@ def custom(run, tier):
 
 
 MANIFEST = {
-    "text": "Coq theorems over ALL interleavings of the supervisor's atomic steps (three CAS commits, injected disconnect/T7/close, the supervisor's step split at its state load so commits land between read and write, notifier deliveries): every change of State() is a legal E37 edge, a T7 expiry never leaves Selected, emitted/delivered notifications are chained (modulo reported coalescing) and never self-transitions, nothing changes after the close latch, quiescent => last reported = State(), drained => last delivered = last reported. The never-replayed clause is refuted by a vm_compute witness (known finding) with the positive no-lag lemma beside it. The transition table is regenerated from the source and bridged; the real supervisor is driven goroutine-free through random/boundary schedules and must equal the extracted model after every action.",
+    "text": "Coq theorems over ALL interleavings of the supervisor's atomic steps (three CAS commits, injected disconnect/T7/close, the supervisor's step split at its state load so commits land between read and write, notifier deliveries): every change of State() is a legal E37 edge, a T7 expiry never leaves Selected, emitted/delivered notifications are chained (modulo reported coalescing) and never self-transitions, nothing changes after the close latch, quiescent => last reported = State(), drained => last delivered = last reported. No processed transition is ever replayed (C05_no_replay, for all action lists, after fix 737422e: commit echoes are report-only and disconnect/T7 are ignored while a TCP-up echo is queued; the pre-fix witness is kept as a regression schedule). The transition table (v1) and the whole supervisor - transition, Commit*, inject, requestClose, emit, fireTransition, step - (v2, family Tie2Supervisor, 14 theorems) are regenerated from the source and bridged to the model per atomic step; the real supervisor is driven goroutine-free through random/boundary schedules (directly and through the connection's runtime glue) and must equal the extracted model after every action; e2e histories on real connections (parked writes across generations, T7 dwell after Deselect, straggler events) are judged by the Go-side log monitor.",
     "note": 'Trusted: Coq kernel, translator, extraction, hook driver. Connection-level Open/Close/reconnect histories on both transports are observed e2e, not proved. Atomicity granularity as stated in the evidence assumptions.',
     "technique": 'Rocq/Coq proof (inductive invariant over an LTS) + translator bridge + extracted-model differential on the real supervisor',
 }
